@@ -473,6 +473,9 @@ def rare_options(up, n, p_block=0.3, reg=False, proj=False):
     seed = int(hashlib.sha1(json.dumps([sorted((k, repr(v)) for k, v in up.items()), n, reg, proj]).encode()).hexdigest()[:8], 16)
     g = np.random.default_rng([seed, 23])
     r = g.random
+    if "regression.num_extra_steps" in up and r() < 0.35:
+        # more extra steps than there are points to move (documented range: any non-negative integer; the solver caps it)
+        up["regression.num_extra_steps"] = int(g.integers(3, 2 * n + 6))
     if r() >= p_block:
         return up
     q = 0.35
